@@ -60,7 +60,7 @@ Qed.
 (* every graph a script reaches satisfies the hypothesis of the theorems *)
 Lemma zstep_wf g p o g' p' obs : wf g -> zstep (g, p) o = Ok ((g', p'), obs) -> wf g'.
 Proof.
-  intros Hwf. destruct o as [k b|a b|a|o| | |a]; cbn [zstep].
+  intros Hwf. destruct o as [k b|a b|a|o| | |a|c k]; cbn [zstep].
   - destruct (add_node _ g) as [g1 i] eqn:Ha. intros H.
     apply (f_equal (fun r => match r with Ok x => fst (fst x) | _ => g end)) in H. cbn [fst] in H. subst g'.
     pose proof (wf_add_node g {| ident := 0; kind := k; count := 0; val := 0; nbufs := n b; armed := false |} Hwf) as H1.
@@ -79,6 +79,11 @@ Proof.
     + intros H. apply (f_equal (fun r => match r with Ok x => fst (fst x) | _ => g end)) in H. cbn [fst] in H. subst g'.
       now apply wf_set_weight_any.
     + intros [= <- _ _]. exact Hwf.
+  - destruct (add_node _ g) as [g1 i] eqn:Ha. intros H.
+    apply (f_equal (fun r => match r with Ok x => fst (fst x) | _ => g end)) in H. cbn [fst] in H. subst g'.
+    match type of Ha with add_node ?w g = _ => pose proof (wf_add_node g w Hwf) as H1 end.
+    rewrite Ha in H1. cbn [fst] in H1.
+    now apply wf_set_weight_any.
 Qed.
 
 (* ---------- a diamond: 0 -> 1 -> 3, 0 -> 2 -> 3 ---------- *)
